@@ -58,10 +58,16 @@ def chunk_asan(payload):
     cnt = part["counters"]
     try:
         cases = [corpus_case(tier, seed, stream, k) for k in range(start, start + count)]
-        res = run.run_cases(os.path.join(bindir["asan"], "qsdrive"), cases, wd, batch=1 if stream == "probe" else 10, timeout=600)
+        fill = payload.get("fill")
+        # second passes of the history corpus with another fill pattern for fresh heap blocks: a field that is read before it is
+        # written then holds a large positive / small / zero value instead of ASan's default 0xbe.. (negative as an int)
+        xenv = {"ASAN_EXTRA": "max_malloc_fill_size=1048576:malloc_fill_byte=%d" % fill} if fill is not None else None
+        res = run.run_cases(os.path.join(bindir["asan"], "qsdrive"), cases, wd, batch=1 if stream == "probe" else 10, timeout=600, env_extra=xenv)
         for c in cases:
             r = res[c.id]
             part["evaluations"] += 1
+            if fill is not None:
+                cnt["asan-fill-%02x" % fill] = cnt.get("asan-fill-%02x" % fill, 0) + 1
             cnt["asan:" + stream] = cnt.get("asan:" + stream, 0) + 1
             cnt["asan-calls"] = cnt.get("asan-calls", 0) + len(r.events)
             part["distinct"].append(run.h(c.script, sorted(c.files.items())))
@@ -223,6 +229,11 @@ def run_check(prop, tier, seed):
         step = 10 if stream in ("hist", "copy", "solve", "verdict", "lu-api", "enum") else 30
         for s in range(0, n, step):
             payloads.append(("chunk_asan", dict(tier=tier, seed=seed, stream=stream, start=s, count=min(step, n - s), bindir=b)))
+    for fill in (0x5a, 0x01):
+        for strm, n0 in (("hist", 80), ("solve", 200)):
+            n = n0 * scale
+            for s_ in range(0, n, 10):
+                payloads.append(("chunk_asan", dict(tier=tier, seed=seed, stream=strm, start=s_, count=min(10, n - s_), bindir=b, fill=fill)))
     plan_v = [("solve", 6), ("hist", 12), ("file-valid", 4), ("file-mutant", 8), ("basis", 3), ("verdict", 3), ("copy", 2), ("lu-api", 2)]
     for stream, n in plan_v:
         n *= (1 if q else 6)
